@@ -544,7 +544,15 @@ def check_value_expr(a, paths, ex, add, key0):
     if m:
         i1, i2 = find_sym(a.symbols, m.group(1)), find_sym(a.symbols, m.group(2))
         ok = len(paths) == 2
-        for p in paths:
+        # same string, written as one join over the prefix segments followed by the last one
+        chained = ("call", "std::slice::<impl [T]>::join", (("call", "std::iter::Iterator::collect", (("call", "std::iter::Iterator::chain", (("iter", L(a, i1)), ("call", "std::iter::once", (L(a, i2),)))),)), ("const", "str", ".")))
+        pure = ("std::iter::once", "std::iter::Iterator::chain", "std::iter::Iterator::collect")
+        if len(paths) == 1 and all(e[0] == "call" and e[1] in pure for e in paths[0].effects) and lab(paths[0].ret) == chained:
+            ok = True
+            paths_ = []
+        else:
+            paths_ = paths
+        for p in paths_:
             empty = [v for l, v in p.conds if isinstance(l, tuple) and l[0] == "call" and l[1].endswith("is_empty") and l[2] == (L(a, i1),)]
             l = lab(p.ret)
             if empty == [True]:
